@@ -143,7 +143,8 @@ func editValue(r *vrand.Rand, v interface{}) interface{} {
 		case 0:
 			return ""
 		case 1:
-			return "AA"
+			// small big-endian integers in base64url: 0, 1, 2, 3, 0x80, 0xff, 65537 (degenerate RSA/EC members)
+			return []string{"AA", "AQ", "Ag", "Aw", "gA", "_w", "AQAB", "AAAB"}[r.Intn(8)]
 		case 2:
 			return x + x
 		case 3:
